@@ -154,6 +154,7 @@ func cmdVerify(argv []string) {
 	type job struct {
 		o      *Obligation
 		script string
+		lite   string // same query without quantified facts (may only discharge)
 	}
 	var jobs []job
 	for _, t := range tgts {
@@ -191,7 +192,23 @@ func cmdVerify(argv []string) {
 				if o.Kind != "vacuity" {
 					gv = modelQueries(o.Inputs)
 				}
-				jobs = append(jobs, job{o, Script(asserts, gv, t.con.RealFloat)})
+				j := job{o: o, script: Script(asserts, gv, t.con.RealFloat)}
+				if o.Kind != "vacuity" {
+					var lite []*Term
+					dropped := false
+					for _, a := range asserts[:len(asserts)-1] {
+						if hasQuantifier(a) {
+							dropped = true
+							continue
+						}
+						lite = append(lite, a)
+					}
+					if dropped {
+						lite = append(lite, asserts[len(asserts)-1])
+						j.lite = Script(lite, nil, t.con.RealFloat)
+					}
+				}
+				jobs = append(jobs, j)
 			}
 		}
 	}
@@ -205,7 +222,7 @@ func cmdVerify(argv []string) {
 		for _, o := range ex.obls[before:] {
 			asserts := append([]*Term{}, ex.relevantFacts(o)...)
 			asserts = append(asserts, Not(o.Goal))
-			jobs = append(jobs, job{o, Script(asserts, nil, false)})
+			jobs = append(jobs, job{o: o, script: Script(asserts, nil, false)})
 		}
 	}
 	ex.globalObligations(res)
@@ -223,6 +240,15 @@ func cmdVerify(argv []string) {
 			defer func() { <-sem }()
 			fname := fmt.Sprintf("%04d_%s", i, sanitize(j.o.Name))
 			r := Solve(j.script, *smtdir, fname, *timeout, *tier == "thorough")
+			if r.Status != "unsat" && r.Status != "sat" && j.lite != "" {
+				// retry without quantified facts: fewer assumptions, so only "unsat" is meaningful
+				r2 := Solve(j.lite, *smtdir, fname+"_lite", *timeout, false)
+				if r2.Status == "unsat" {
+					r2.Solver += "(qf-facts)"
+					r2.Seconds += r.Seconds
+					r = r2
+				}
+			}
 			oo := &OblOut{Name: j.o.Name, Kind: j.o.Kind, Func: j.o.Func, Pos: j.o.Pos, Text: j.o.Text, Answer: r.Status, Solver: r.Solver,
 				Seconds: r.Seconds, Backend: "smt", SMTFile: filepath.Join(*smtdir, fname+".smt2"), BySolver: r.ByName}
 			switch {
@@ -331,4 +357,24 @@ func fatal(res *Output, out string, f string, a ...any) {
 	writeOut(res, out)
 	fmt.Fprintf(os.Stderr, f+"\n", a...)
 	os.Exit(3)
+}
+
+
+var quantMemo = map[int]bool{}
+
+func hasQuantifier(t *Term) bool {
+	if v, ok := quantMemo[t.id]; ok {
+		return v
+	}
+	r := t.Op == "forall" || t.Op == "exists"
+	if !r {
+		for _, a := range t.Args {
+			if hasQuantifier(a) {
+				r = true
+				break
+			}
+		}
+	}
+	quantMemo[t.id] = r
+	return r
 }
